@@ -7,7 +7,7 @@ import CTV.Gen.ChainTie
   `IsPrecertificate` of the first certificate of the validated path, then the endpoint test; what is handed back (nothing /
   the validated path) and whether an error accompanies it.  `verifyAddChain_tie`: the model decides exactly so.
 * `Gen.validateChainOrder` is the execution order of the rejecting checks of `ValidateChain` and its helpers (parse, the seven
-  leaf filters, `Verify`, the empty-result test, `chainsEquivalent`).  `reject_order_tie`: the model's `ValidateChain` rejects
+  leaf filters, `Verify`, the empty-result test — its condition is `Gen.noChainsFails`, `noChains_tie` —, `chainsEquivalent`).  `reject_order_tie`: the model's `ValidateChain` rejects
   with the FIRST check of that order that fails — a leaf-filter rejection means every check listed before it passed, and the
   path stages are reached only when every leaf filter passed.
 * `IsPrecertificate`'s loop: `poisonLoop_tie` (the model's loop over the regenerated loop shape and poison test computes the
@@ -112,6 +112,13 @@ theorem reject_order_tie (roots : List Cert) (sigOK : SigOracle) (o : Opts) (raw
 /-- the path stages come after every leaf filter in the regenerated order, in the order the model applies them -/
 theorem path_stages_last : Gen.validateChainOrder.drop 8 = ["verify", "noChains", "chainsEquivalent"] ∧ Gen.validateChainOrder.head? = some "parse" := by
   decide
+
+/-- **noChains_tie.** The model's test on `Verify`'s result (`chains.isEmpty`, between `Verify` and `chainsEquivalent`) is the
+regenerated condition of the "no path to root" return. -/
+theorem noChains_tie (chains : List (List Cert)) : Gen.noChainsFails chains.length = chains.isEmpty := by
+  cases chains <;> simp [Gen.noChainsFails]; omega
+
+example : Gen.noChainsFails 0 = true ∧ Gen.noChainsFails 2 = false := by decide
 
 /-- **poisonLoop_tie.** The model's `IsPrecertificate` — the loop over all poison extensions in the regenerated shape, with the
 regenerated poison test — is an error iff some poison extension is not (critical, NULL), and otherwise says "precertificate"
